@@ -1,12 +1,19 @@
 #!/bin/bash
-# Runs every seeded change against the quick check of its property (applies to /repo, runs, reverts).
-# Usage: tools/seeded_all.sh [wall]  -> /verif/seeded/RESULTS.txt
-W=${1:-40}
+# Runs every seeded change against the quick check of its property.
+#   tools/seeded_all.sh [wall] [--scratch]
+# default: applies each patch to /repo (git apply), runs the check there, reverts (git checkout -- .);
+# --scratch: uses a scratch copy under /dev/shm instead (leaves /repo alone, can run next to other work).
+# Writes /verif/seeded/RESULTS.txt; tools/seeded_report.py turns it into RESULTS.md.
+W=${1:-40}; MODE=${2:-apply}
 OUT=/verif/seeded/RESULTS.txt
-echo "# tools/seeded_all.sh $W ($(date -u +%FT%TZ), /repo $(git -C /repo rev-parse --short HEAD), /verif $(git -C /verif rev-parse --short HEAD))" > $OUT
+echo "# tools/seeded_all.sh $W $MODE ($(date -u +%FT%TZ), /repo $(git -C /repo rev-parse --short HEAD), /verif $(git -C /verif rev-parse --short HEAD))" > $OUT
 for d in /verif/seeded/*/; do
   ID=$(basename $d)
   PROP=$(/venv/bin/python -c "import json;print(json.load(open('$d/meta.json'))['property'])")
-  /verif/tools/seeded_run.sh $ID $PROP --wall $W --no-selftest 2>&1 | grep -E "^SEEDED|^  \{" | cut -c1-260 >> $OUT
+  if [ "$MODE" = "--scratch" ]; then
+    /verif/tools/mutant_run.sh $d/patch.diff $PROP --wall $W 2>&1 | grep -E "^MUTANT|^    (VIOLATION|C[0-9]+:)" | sed "s/^MUTANT patch /SEEDED $ID /" | cut -c1-260 >> $OUT
+  else
+    /verif/tools/seeded_run.sh $ID $PROP --wall $W 2>&1 | grep -E "^SEEDED|^  \{" | cut -c1-260 >> $OUT
+  fi
 done
 cat $OUT
